@@ -11,7 +11,7 @@ open Pyro Pyro.Wire Pyro.PyIR
 
 /-- the state `add_payload` starts in: a message object fresh from `__init__(header)` -/
 def initEnv (h : Header) (payload : Bytes) : Env :=
-  [("payload", .bytes payload), ("self.data", .bytes []), ("self.annotations", .dict []),
+  [("p1", .bytes payload), ("self.data", .bytes []), ("self.annotations", .dict []),
    ("self.data_size", .int h.dataSize), ("self.annotations_size", .int h.annSize), ("self.flags", .int h.flags)]
 
 def runAddPayload (cfg : PyIR.Cfg) (body : Stmt) (h : Header) (payload : Bytes) : Res :=
